@@ -596,7 +596,8 @@ Theorem bad_response_turn : forall vc (n : node sig) first second,
    p1 <> 0 /\ p2 <> 0 /\ ~ In p1 (n_stopped n) /\ ~ In p2 (n_stopped n)) /\
   (n_store n' = n_store n /\ n_state n' = n_state n /\ n_panicked n' = false /\
    p_height (n_pool n') = h /\ length (p_reqs (n_pool n')) = length (p_reqs (n_pool n))) /\
-  (forall q, In q (n_stopped n') <-> q = p1 \/ q = p2 \/ In q (n_stopped n)) /\
+  (n_stopped n' = (if p2 =? p1 then [p1] else [p2; p1]) ++ n_stopped n /\
+   forall q, In q (n_stopped n') <-> q = p1 \/ q = p2 \/ In q (n_stopped n)) /\
   (~ In p1 (ids (n_pool n')) /\ ~ In p2 (ids (n_pool n')) /\
    forall r, In r (p_reqs (n_pool n')) -> rq_peer r <> p1 /\ rq_peer r <> p2) /\
   (req_at (n_pool n') h = Some fresh_req /\ req_at (n_pool n') (h + 1) = Some fresh_req) /\
@@ -627,7 +628,7 @@ Proof.
   { intro k. apply req_at_map; [exact T4|]. rewrite T5, map_map. reflexivity. }
   split; [rewrite Ep1, Ep2; repeat split; assumption|].
   split; [repeat split; try assumption; try congruence; rewrite T5, !map_length; reflexivity|].
-  split; [exact Hst|].
+  split; [split; [exact T7 | exact Hst]|].
   split.
   { assert (Q1 : In p1 (n_stopped n')) by (apply Hst; left; reflexivity).
     assert (Q2 : In p2 (n_stopped n')) by (apply Hst; right; left; reflexivity).
@@ -921,6 +922,48 @@ Proof.
     + exists (new ++ [e]). rewrite A, S1, <- app_assoc. split; [reflexivity|].
       rewrite app_length. cbn [length]. split; [rewrite B, S3; lia|].
       rewrite map_app, C. cbn [map]. rewrite Nat.add_1_r, desc_snoc. f_equal. rewrite S2. f_equal. lia.
+Qed.
+
+(* ---- clause 6 for block responses nobody asked this peer for: a block for a height whose
+   requester already holds a block or is assigned to another peer (a pusher, a duplicate), or a
+   block more than maxDiffBetweenCurrentAndReceivedBlockHeight away from pool.height with no
+   requester, is not taken; the sender is reported and stopped in the same step, and only its
+   own requesters are reset *)
+Theorem unsolicited_block_stops_sender : forall vc (n : node sig) p b,
+  n_panicked n = false -> p <> 0 -> ~ In p (n_stopped n) ->
+  (exists r, req_at (n_pool n) (b_height b) = Some r /\ (rq_block r <> None \/ rq_peer r <> p)) \/
+  (req_at (n_pool n) (b_height b) = None /\
+   Z.abs (p_height (n_pool n) - b_height b) > bc0_max_diff_current_received_height) ->
+  let n' := step' vc n (OBlock p b) in
+  n' = stop_peer (with_pool n (report (n_pool n) p)) p /\
+  n_stopped n' = p :: n_stopped n /\
+  n_store n' = n_store n /\ n_state n' = n_state n /\
+  p_height (n_pool n') = p_height (n_pool n) /\
+  p_reqs (n_pool n') = map (redo_req p) (p_reqs (n_pool n)) /\
+  (forall k r', req_at (n_pool n) k = Some r' -> rq_peer r' <> p -> req_at (n_pool n') k = Some r').
+Proof.
+  intros vc n p b Hp H0 Hs Hcase n'.
+  assert (Hc : (p =? 0) || is_stopped n p = false).
+  { apply orb_false_iff. split; [apply Z.eqb_neq; exact H0 | apply is_stopped_false; exact Hs]. }
+  assert (Ea : add_block (n_pool n) p b = report (n_pool n) p).
+  { unfold add_block. destruct Hcase as [[r [Er Hr]]|[Er Hd]]; rewrite Er.
+    - destruct (rq_block r) as [b0|] eqn:Eb; [reflexivity|]. cbn [orb].
+      destruct Hr as [Hr|Hr]; [congruence|]. apply Z.eqb_neq in Hr. rewrite Hr. reflexivity.
+    - destruct (Z.gtb_spec (Z.abs (p_height (n_pool n) - b_height b)) bc0_max_diff_current_received_height);
+        [reflexivity | lia]. }
+  assert (En : n' = stop_peer (with_pool n (report (n_pool n) p)) p).
+  { unfold n'. destruct (step_block_cases vc n p b Hp Hc) as [[Ee _]|[_ E]].
+    - exfalso. rewrite Ea in Ee. cbn [report p_errors] in Ee.
+      apply (f_equal (@length peer)) in Ee. cbn [length] in Ee. lia.
+    - rewrite E, Ea. reflexivity. }
+  split; [exact En|]. rewrite En.
+  rewrite (stop_peer_fresh (with_pool n (report (n_pool n) p)) p H0 Hs).
+  cbn [with_pool n_stopped n_store n_state n_pool].
+  destruct (remove_peer_shape (report (n_pool n) p) p) as [E1 [E2 _]].
+  rewrite E1, E2. cbn [report p_height p_reqs]. repeat split.
+  intros k r' Ek Hne.
+  rewrite (req_at_map (n_pool n) (remove_peer (report (n_pool n) p) p) (redo_req p) k E2 E1), Ek.
+  cbn [option_map]. unfold redo_req. apply Z.eqb_neq in Hne. rewrite Hne. reflexivity.
 Qed.
 
 End PP.
